@@ -486,6 +486,50 @@ def check_c10(tier, seed):
                         b.fail("C10.bounded.nonconstant_without_grad", d2, "the value written into a non-constant base received no gradient")
                     b.case(d2)
                 b.case(desc)
+    # conversions and copies: an explicit constant= always wins, None infers from the result's dtype (integers are constant) -- for every
+    # combination of source flag, source dtype, target dtype, copy= and the routine used (astype, copy, astensor, tensor, Tensor)
+    routines = [
+        ("astype", lambda t, dt, cp, c: t.astype(dt, copy=cp, constant=c)),
+        ("astensor", lambda t, dt, cp, c: mg.astensor(t, dtype=dt, constant=c)),
+        ("tensor", lambda t, dt, cp, c: mg.tensor(t, dtype=dt, copy=cp, constant=c)),
+        ("Tensor", lambda t, dt, cp, c: mg.Tensor(t, dtype=dt, copy=cp, constant=c)),
+        ("copy", lambda t, dt, cp, c: t.copy(constant=c)),
+    ]
+    for rn, rf in routines:
+        for sdt, src_const in [(np.float64, True), (np.float64, False), (np.float32, True), (np.float32, False), (np.int64, True)]:
+            for tdt in (np.float64, np.float32, np.int32):
+                for cp in (True, False):
+                    for c in (None, True, False):
+                        if rn == "copy" and tdt is not sdt:
+                            continue
+                        src = mg.tensor(np.arange(1, 4).astype(sdt), constant=src_const)
+                        d3 = dict(routine=rn, source_dtype=np.dtype(sdt).name, source_constant=src_const, dtype=np.dtype(tdt).name, copy=cp, constant=c)
+                        b.count("explicit flag wins on conversion")
+                        integer_result = np.issubdtype(np.dtype(sdt) if rn == "copy" else np.dtype(tdt), np.integer)
+                        try:
+                            out = rf(src, tdt, cp, c)
+                        except ValueError as e:
+                            if c is False and integer_result:
+                                b.case(d3, nontrivial=False)
+                                continue  # an integer tensor cannot be a variable: refused loudly
+                            b.fail("C10.bounded.conversion_raises", d3, f"{type(e).__name__}: {e}")
+                            continue
+                        except Exception as e:
+                            b.fail("C10.bounded.conversion_raises", d3, f"{type(e).__name__}: {e}")
+                            continue
+                        if c is not None and out.constant is not c:
+                            b.fail("C10.bounded.explicit_flag_ignored", d3, f"constant={c} was passed, the result has constant={out.constant}")
+                        elif c is None and integer_result and out.constant is not True:
+                            b.fail("C10.bounded.integer_not_constant", d3, "integer-valued result is not constant")
+                        elif src.constant is not src_const:
+                            b.fail("C10.bounded.source_flag_changed", d3, "the source tensor's flag changed")
+                        else:
+                            # an un-frozen result really takes part in back-propagation
+                            if out.constant is False:
+                                (out * 2.0).sum().backward()
+                                if out.grad is None:
+                                    b.fail("C10.bounded.nonconstant_without_grad", d3, "the non-constant result received no gradient")
+                        b.case(d3)
     return b
 
 
@@ -772,6 +816,61 @@ def check_c11(tier, seed):
             if f is not np.can_cast:
                 b.fail("C11.bounded.nodiff.raises", dict(fn=f.__name__), f"{type(e).__name__}: {e}")
         b.case(dict(fn=f.__name__, kind="no-diff"))
+    # positional spellings: every Tensor method that has a mygrad function of the same name, called with the method's own parameters given
+    # POSITIONALLY (every prefix of them), against the function called with the same positional list and against the keyword spelling
+    import inspect
+
+    canon = dict(axis=1, keepdims=True, ddof=1, axes=(1, 0, 2), axis1=0, axis2=2, source=0, destination=2, a_min=-0.5, a_max=0.5, order="C", constant=None, newshape=(6, 4), shape=(6, 4), dtype=np.float64, copy=False,
+                 casting="unsafe", offset=0, indices=[0, 1], repeats=2, shift=1, k=1, out=None)
+    canon.update(newshape=(4, 3), shape=(4, 3))
+    x3v = rng.uniform(-1, 1, size=(3, 1, 4))
+
+    def agree_any(name, fa, fb, desc):
+        """like agree(), for routines that may return plain arrays (any, argmax, ...)"""
+        b.count("spellings agree")
+        try:
+            ra = fa(mg.tensor(x3v.copy()))
+        except Exception as e:
+            b.error(f"{name}: reference spelling raised {type(e).__name__}: {e}")
+            return
+        try:
+            rb = fb(mg.tensor(x3v.copy()))
+        except Exception as e:
+            b.fail(f"C11.bounded.{name}.raises", desc, f"{type(e).__name__}: {e}")
+            return
+        da, db = (ra.data if isinstance(ra, Tensor) else np.asarray(ra)), (rb.data if isinstance(rb, Tensor) else np.asarray(rb))
+        if type(ra) is not type(rb) or da.shape != db.shape or da.dtype != db.dtype or not np.array_equal(da, db, equal_nan=True):
+            b.fail(f"C11.bounded.{name}.value", desc, f"results differ: {type(ra).__name__}{da.shape}{da.dtype} vs {type(rb).__name__}{db.shape}{db.dtype}")
+    for mname, meth in sorted(inspect.getmembers(Tensor, predicate=inspect.isfunction)):
+        if mname.startswith("_") or not callable(getattr(mg, mname, None)):
+            continue
+        try:
+            params = [p_ for p_ in list(inspect.signature(meth).parameters.values())[1:] if p_.kind in (p_.POSITIONAL_ONLY, p_.POSITIONAL_OR_KEYWORD)]
+        except (TypeError, ValueError):
+            continue
+        if not params or any(p_.name not in canon for p_ in params):
+            continue
+        n_required = max([i_ + 1 for i_, p_ in enumerate(params) if p_.default is p_.empty], default=0)
+        for k_ in range(max(1, n_required), len(params) + 1):
+            names = [p_.name for p_ in params[:k_]]
+            vals = [canon[n_] for n_ in names]
+            d_ = dict(method=mname, positional=names)
+            probe = getattr(mg.tensor(x3v.copy()), mname)
+            try:
+                is_tensor = isinstance(probe(*vals), Tensor)
+            except Exception:
+                is_tensor = True
+            if is_tensor:
+                agree(f"positional[{mname}].method_vs_keyword", (lambda mname=mname, names=names, vals=vals: lambda a: getattr(a, mname)(**dict(zip(names, vals))))(),
+                      (lambda mname=mname, vals=vals: lambda a: getattr(a, mname)(*vals))(), [x3v], [False], dict(d_, A=f"x.{mname}(**kw)", B=f"x.{mname}(*args)"))
+                agree(f"positional[{mname}].function_vs_method", (lambda mname=mname, vals=vals: lambda a: getattr(a, mname)(*vals))(),
+                      (lambda mname=mname, vals=vals: lambda a: getattr(mg, mname)(a, *vals))(), [x3v], [False], dict(d_, A=f"x.{mname}(*args)", B=f"mg.{mname}(x, *args)"))
+            else:
+                agree_any(f"positional[{mname}].method_vs_keyword", (lambda mname=mname, names=names, vals=vals: lambda a: getattr(a, mname)(**dict(zip(names, vals))))(),
+                          (lambda mname=mname, vals=vals: lambda a: getattr(a, mname)(*vals))(), dict(d_, A=f"x.{mname}(**kw)", B=f"x.{mname}(*args)"))
+                agree_any(f"positional[{mname}].function_vs_method", (lambda mname=mname, vals=vals: lambda a: getattr(a, mname)(*vals))(),
+                          (lambda mname=mname, vals=vals: lambda a: getattr(mg, mname)(a, *vals))(), dict(d_, A=f"x.{mname}(*args)", B=f"mg.{mname}(x, *args)"))
+            b.case(d_)
     return b
 
 
